@@ -351,7 +351,6 @@ def ref_space_jacobian(arm, theta):
     J = np.zeros((6, len(theta)))
     for i, dT in enumerate(cols):
         J[:, i] = O.vee6(dT @ Tinv)
-    sut(arm.FK, theta.copy())         # leave the arm at theta
     return J, T
 
 
@@ -375,7 +374,9 @@ def setup(case, ctx, after_build=None):
     if spec["kind"] == "urdf":
         X = arm._eef_to_last_joint
         s.state["last_home"] = model.M0 @ np.array(X.gTM(), dtype=float) if X is not None else model.M0.copy()
-        s.state["urdf_trailing_fixed"] = X is not None
+        # a fixed joint with a non-zero origin behind the last joint: the library's stored last joint home is then the
+        # tool-folded pose, not the joint's frame (UR5 / UR10; irb_2400's trailing fixed joint has a zero origin)
+        s.state["urdf_trailing_fixed"] = not np.allclose(s.state["last_home"], model.M0, rtol=0, atol=1e-9)
     else:
         s.state["last_home"] = model.H[-1].copy()
         s.state["urdf_trailing_fixed"] = False
@@ -412,6 +413,11 @@ def setup(case, ctx, after_build=None):
     ctx.nontrivial(base_moved or tool_changed or big)
     s.known_region = False
     s.J, s.T = ref_space_jacobian(arm, theta)
+    # leave the arm in a state that is NOT theta (reflection inside the admissible box), so that a call with an
+    # explicit joint vector is seen to use its argument and not the stored state; the clauses then call
+    # FK(theta) themselves before exercising the defaulted-theta variants
+    s.other = np.minimum(np.maximum(lo + hi - theta, lo), hi)
+    sut(arm.FK, s.other.copy())
     return s
 
 
